@@ -134,8 +134,11 @@ def get_next_linebox(context, linebox, position_y, bottom_space, skip_stack,
             break
         candidate_height = line.height
 
-        new_excluded_shapes = context.excluded_shapes
-        context.excluded_shapes = excluded_shapes
+        # Restore the floats in place: the list is shared with the stack of
+        # formatting contexts, re-binding the attribute would leave the floats
+        # of this pass in it.
+        new_excluded_shapes = context.excluded_shapes.copy()
+        context.excluded_shapes[:] = excluded_shapes
         position_x, position_y, available_width = avoid_collisions(
             context, line, containing_block, outer=False)
         if containing_block.style['direction'] == 'ltr':
@@ -145,7 +148,7 @@ def get_next_linebox(context, linebox, position_y, bottom_space, skip_stack,
             condition = (position_x + line.width, position_y) == (
                 original_position_x + original_width, original_position_y)
         if condition:
-            context.excluded_shapes = new_excluded_shapes
+            context.excluded_shapes[:] = new_excluded_shapes
             break
 
     absolute_boxes.extend(line_absolutes)
